@@ -204,7 +204,13 @@ def run(tier):
         "checker_cmd": "tlc MC_Batch (enumerate + theorems); dlv batch (render + run + record); tlc BatchTrace (judge)",
     })
     rep.assumptions += ASSUMPTIONS
-    return rep.finish()
+    rc = rep.finish()
+    if tier != "quick" and not os.environ.get("VERIF_KEEP"):
+        # the thorough run leaves ~1 GB of observations; replay files are self-contained
+        for fn in os.listdir(rep.wd):
+            if fn.startswith(("obs-main-", "cases-main-")):
+                os.remove(os.path.join(rep.wd, fn))
+    return rc
 
 
 ASSUMPTIONS = [
